@@ -203,6 +203,17 @@ def rand_suite(tier, seed, sid0):
             sc = gen.tri(rng, sid0 + len(out), kind)
             sc["tag"] = {"suite": "tri_conc"}
             out.append(sc)
+    # partly consumed chunks followed by further pulls, enumerated
+    for kind in list(ALL) + ["vec_h", "iter_h"]:
+        base = {"vec_h": "vec", "iter_h": "iter"}.get(kind, kind)
+        ps = gen.partial(base, sid0 + len(out))
+        if tier == "quick":
+            ps = ps[(seed % 3)::3]
+        for sc in ps:
+            sc["id"] = sid0 + len(out)
+            sc["kind"] = kind
+            sc["tag"] = {"suite": "partial"}
+            out.append(sc)
     # elements that own heap memory: a leaked element is a leaked allocation (sequential and concurrent)
     for kind in ("vec_h", "iter_h"):
         for j in range(per):
@@ -351,6 +362,14 @@ def dual_suite(tier, seed, sid0):
                 sc["policy"] = "rand"
             sc["tag"] = {"suite": "dual"}
             out.append(sc)
+    for kind in ALL:
+        ps = gen.partial(kind, 0)
+        if tier == "quick":
+            ps = ps[(seed % 3)::3]
+        for sc in ps:
+            sc["id"] = sid0 + len(out)
+            sc["tag"] = {"suite": "dual_partial"}
+            out.append(sc)
     # TLC-generated behaviours (explicit schedules, hence identical in both builds): a seeded sample
     gc, _ = gen_counter("quick", seed + 1, 0)
     gt, _ = gen_ticket("quick", seed + 1, 0)
@@ -388,6 +407,14 @@ def twin_suite(tier, seed, sid0):
             sc2["kind"] = kb
             a.append(sc)
             b.append(sc2)
+    for ka, kb in TWINS:
+        for sc in gen.partial(ka, 0):
+            sc["id"] = sid0 + len(a)
+            sc["tag"] = {"suite": "twin_partial"}
+            sc2 = dict(sc)
+            sc2["kind"] = kb
+            a.append(sc)
+            b.append(sc2)
     return (a, b), {"replayed": len(a) * 2}
 
 
@@ -411,6 +438,9 @@ def boundary_suite(tier, seed, sid0):
         if any(o["k"] == "bnew" and o["n"] != 0 for o in ops) and not any(o["k"] == "intoseq" for o in ops):
             # later buffered pulls are the interesting ones (the first is always in range)
             ops = list(ops) + [{"k": "bnext", "n": 0, "take": 2}] * 3
+        if any(o["k"] == "skip" for o in ops) and not any(o["k"] == "intoseq" for o in ops):
+            # pulls after a skip: the counter must stay at/after the length however large the bounds are
+            ops = list(ops) + [{"k": "next", "n": 0, "take": -1}] * 3 + [{"k": "len", "n": 0, "take": -1}]
         for o in ops:
             x = {"op": o["k"]}
             if o["k"] in ("chunk", "bnew", "foreach", "eforeach", "fold"):
